@@ -42,6 +42,7 @@ type Contract struct {
 	Ensures   []*Clause
 	Panics    *Clause
 	PanicsMay bool // may_panic_when: panic only if the condition; no converse
+	SchedPoint bool // other goroutines may run here: guarded monitor fields become arbitrary
 	FnFacts   []*Clause
 	Modifies  []*Clause
 	Lets      []*Clause
@@ -73,6 +74,12 @@ var ghostInits = map[string][][2]string{}
 
 // globalFacts: package path -> facts about its package-level variables.
 var globalFacts = map[string][]*Clause{}
+
+// monitors: package path -> (type name, field name) pairs that are shared
+// mutable state guarded by a lock. At every scheduling point (Lock, Unlock,
+// Wait: contracts marked "schedpoint") these fields of every object of the
+// type become arbitrary; all other fields are treated as stable.
+var monitors = map[string][][2]string{}
 
 func hash8(s string) string {
 	h := sha256.Sum256([]byte(s))
@@ -229,6 +236,13 @@ func parseContracts(path, pkgPath string, external bool) ([]*Contract, map[strin
 			}
 			cur = &Contract{Key: key, File: path, Line: i + 1, External: external, Pkg: pkgPath, Preds: preds, RecvNonNil: true}
 			out = append(out, cur)
+		case "monitor":
+			// monitor TypeName guards f1 f2 ...
+			if len(f) >= 4 && f[2] == "guards" {
+				for _, fld := range f[3:] {
+					monitors[pkgPath] = append(monitors[pkgPath], [2]string{f[1], fld})
+				}
+			}
 		case "ghostinit":
 			// ghostinit <type string> <ghost name> <smt value>: value of the
 			// ghost field of a freshly allocated object of that type
@@ -306,6 +320,8 @@ func parseContracts(path, pkgPath string, external bool) ([]*Contract, map[strin
 				cur.Pure = true
 			case "inline":
 				cur.Inline = true
+			case "schedpoint":
+				cur.SchedPoint = true
 			case "trusted":
 				cur.Trusted = true
 			case "nonnil":
